@@ -16,7 +16,8 @@ ColLists == {<< >>} \cup {<<c>> : c \in {x \in Cols : x.path = "c1"}} \cup
                {<<a, b>> : a \in {x \in Cols : x.path = "c1" /\ x.name = "n1" /\ x.max = 2}, b \in {x \in Cols : x.path = "c2" /\ x.desc = "t1" /\ x.sup # "one"}}
 ColCases == {[k |-> "cols", srv |-> s, cols |-> l] : s \in Srvs, l \in ColLists}
 \* objects: path, entity tag, modification time, content
-Objs == [path : {"o1", "o2", "o3"}, etag : {"e1", "e2", "e3"}, mtime : {"m1", "m2"}, data : {"d1", "d2", "d3"}]
+\* "e0" / "m0": the backend holds no entity tag / no modification time for the object (empty string, zero time)
+Objs == [path : {"o1", "o2", "o3"}, etag : {"e0", "e1", "e2", "e3"}, mtime : {"m0", "m1", "m2"}, data : {"d1", "d2", "d3"}]
 ObjLists == {<<o>> : o \in Objs} \cup (IF Big THEN {<<a, b>> : a \in {x \in Objs : x.path = "o1"}, b \in {x \in Objs : x.path = "o3"}}
                                                ELSE {<<a, b>> : a \in {x \in Objs : x.path = "o1" /\ x.mtime = "m1"}, b \in {x \in Objs : x.path = "o3" /\ x.etag = "e3" /\ x.data = "d2"}})
 ObjCases == {[k |-> "objs", srv |-> s, via |-> v, objs |-> l] : s \in Srvs, v \in {"get", "multiget", "query"}, l \in ObjLists}
@@ -28,9 +29,10 @@ MgCases == {[k |-> "mgst", srv |-> s, items |-> it] : s \in Srvs,
 MgValid(c) == \A i, j \in 1..Len(c.items) : i # j => c.items[i].href # c.items[j].href
 \* PUT: the backend receives the caller's object and its answer (path, tag, time) is handed back
 PutCases == {[k |-> "put", srv |-> s, path |-> p, data |-> d, rpath |-> r, etag |-> e, mtime |-> m] :
-               s \in Srvs, p \in {"o1", "o2"}, d \in {"d1", "d2", "d3"}, r \in {"o1", "o2", "o3"}, e \in {"e1", "e2", "e3"}, m \in {"m1", "m2"}}
+               s \in Srvs, p \in {"o1", "o2"}, d \in {"d1", "d2", "d3"}, r \in {"o1", "o2", "o3"}, e \in {"e0", "e1", "e2", "e3"}, m \in {"m0", "m1", "m2"}}
 \* the client reads conformant documents from an independent writer, whatever their layout
-Layouts == {"plain", "split", "splitrev", "extra", "opt404", "opt404first", "prefixes", "ws", "cdata"}
+\* "absent404(first)": the optional properties the resource lacks are reported in a 404 propstat instead of being left out
+Layouts == {"plain", "split", "splitrev", "extra", "opt404", "opt404first", "absent404", "absent404first", "prefixes", "ws", "cdata"}
 DocCases == {[k |-> "doc", srv |-> s, call |-> "objs", layout |-> ly, objs |-> l, cols |-> << >>] : s \in Srvs, ly \in Layouts, l \in {x \in ObjLists : Len(x) = 1 \/ Big}}
             \cup {[k |-> "doc", srv |-> s, call |-> "cols", layout |-> ly, objs |-> << >>, cols |-> l] : s \in Srvs, ly \in Layouts, l \in {x \in ColLists : Len(x) >= 1}}
             \cup {[k |-> "doc", srv |-> "card", call |-> "sync", layout |-> ly, objs |-> l, cols |-> << >>] : ly \in Layouts, l \in {x \in ObjLists : Len(x) = 2}}
